@@ -147,7 +147,7 @@ func ruleOptionLists(c *Ctx) {
 			}
 			for _, cd := range g.CondsAtInstr(cl) {
 				b, ok := cd.V.(*ssa.BinOp)
-				if !ok || !((b.Op == token.EQL && cd.Sense) || (b.Op == token.NEQ && !cd.Sense)) {
+				if !ok || !((eqHolds(b, cd)) || (b.Op == token.NEQ && !cd.Sense)) {
 					continue
 				}
 				for _, side := range []ssa.Value{b.X, b.Y} {
